@@ -48,8 +48,8 @@ func dsl(slot int, backend string, extra string, ingressExtra string) string {
 	base := 20000 + slot*10
 	q := "queue { backend " + backend + " }"
 	fwd := `auth forward "http://192.0.2.1/check" { copy_headers "` + fwdCopy[0] + `" copy_headers "` + fwdCopy[1] + `" }`
-	return fmt.Sprintf(`
-ingress   { listen "127.0.0.1:%d" %[10]s }
+	return strings.Replace(fmt.Sprintf(`
+ingress   { listen "127.0.0.1:%d" @INGRESS@ }
 pull_api  { listen "127.0.0.1:%d" grpc_listen "127.0.0.1:%d" auth token "raw:g1" default_lease_ttl 30m }
 admin_api { listen "127.0.0.1:%d" }
 defaults {
@@ -62,7 +62,7 @@ defaults {
 /d  { %[5]s deliver "%[7]s" { } }
 /d8 { %[5]s max_body 8 deliver "%[8]s" { } }
 /df { %[5]s %[6]s deliver "%[9]s" { } }
-`+extra, base, base+1, base+2, base+3, q, fwd, routes["std"].url, routes["small"].url, routes["fwd"].url, ingressExtra)
+`+extra, base, base+1, base+2, base+3, q, fwd, routes["std"].url, routes["small"].url, routes["fwd"].url), "@INGRESS@", ingressExtra, 1)
 }
 
 func grpcAddr(slot int) string { return fmt.Sprintf("127.0.0.1:%d", 20000+slot*10+2) }
@@ -610,6 +610,17 @@ func (x *run) check(i int, via, phase string, payload []byte, payloadErr string,
 		x.fail(i, "payload-encoding:"+via, fmt.Sprintf("payload cannot be decoded as standard base64: %s (%s)", payloadErr, where))
 	} else if d := comparePayload(x.bodies[i], payload); d != "" {
 		x.fail(i, "payload:"+via, d+" ("+where+")")
+	}
+	if ly := layerOf(c.Route); ly != nil && ly.Sign != "" && via == "push" {
+		name := "X-Hookaido-Signature"
+		if ly.Sign == "custom" {
+			name = signSigName
+		}
+		if len(headers[name]) == 1 {
+			x.res.count("layer_signed_push_deliveries", 1)
+		} else {
+			x.res.count("layer_push_deliveries_without_signature_not_judged", 1)
+		}
 	}
 	if exact {
 		for _, f := range compareFraming(c, headers) {
